@@ -222,6 +222,11 @@ func (p *printer) writeComment(comment *ast.Comment) {
 		p.writeString(pos, trimRight(text), true)
 		return
 	}
+	// 注:-style comments are line comments too
+	if isZhuComment(text) {
+		p.writeString(pos, trimRight(text), true)
+		return
+	}
 
 	// for /*-style comments, print line by line and var the
 	// write function take care of the proper indentation
@@ -393,7 +398,18 @@ func (p *printer) setComment(g *ast.CommentGroup) {
 // it extends to the end of its line, so a line break must follow it.
 // A #-style comment may consist of the '#' alone.
 func isLineComment(text string) bool {
-	return text[0] == '#' || len(text) > 1 && text[1] == '/'
+	return text[0] == '#' || len(text) > 1 && text[1] == '/' || isZhuComment(text)
+}
+
+// isZhuComment reports whether text is a 注:-style comment of the .wz syntax
+// (注 followed by an ASCII or a full-width colon): like // and # it extends
+// to the end of its line.
+func isZhuComment(text string) bool {
+	if !strings.HasPrefix(text, token.K_注) {
+		return false
+	}
+	rest := text[len(token.K_注):]
+	return strings.HasPrefix(rest, ":") || strings.HasPrefix(rest, "：")
 }
 
 // isBlockComment reports whether text is a /*-style comment.
